@@ -235,6 +235,8 @@ def run(index, tier="quick", seed=0) -> Result:
             res.bad("SORT-1", k + ":stray", f"{fn.file}:{stray[0].lineno}", f"{k} reads self.{stray[0].attr} directly next to the sorted axes")
         else:
             res.ok("SORT-1", k)
+    from ..parallel import report as _copy1
+    _copy1(res, index, lambda f: f['cls'] in ('Circle', 'Ellipse', 'Sphere', 'Ellipsoid') and f['top'] not in ('is_inside', 'distance_to_surface', 'compute_form_factor_amplitude', 'to_hoomd'))
     return res
 
 
